@@ -53,6 +53,21 @@ def check(run):
         top = {"name": "s6", "disabled": False, "rank": 0, "hooks": hooks, "injected": [], "tests": tests, "subs": []}
         base.append({"id": "qf%d" % k, "project": {"fixtures": fx, "suites": [top]}, "sched": [],
                      "options": {"nb_threads": 1, "stop_on_failure": False, "force_disabled": True}})
+    # directed projects: a test that depends on a test of ANOTHER suite, in a suite that has a setup of its own (a suite-scoped
+    # fixture the test uses, a setup_suite hook): the dependency may be over long before that setup is
+    for k in range(4 if run.tier == "quick" else 40):
+        fx = [{"name": "f5", "scope": "suite", "params": [], "per_thread": False, "generator": bool(k % 2),
+               "setup": [["mark", 70 + i] for i in range(2 + k % 3)] + [["log", 1, 1]], "teardown": [["log", 1, 3]] if k % 2 else []}]
+        mk = lambda n, i, args, deps: {"name": n, "disabled": False, "rank": i, "deps": deps, "args": args, "params": {},
+                                       "body": [["mark", 40 + i], ["log", 1, 50 + i]] + [["use", a] for a in args]}
+        hooks = dict(_NOHOOKS)
+        if k % 2 == 0:
+            hooks["setup_suite"] = {"args": [], "script": [["mark", 80 + i] for i in range(1 + k % 3)] + [["log", 1, 8]]}
+        producer = {"name": "s6", "disabled": False, "rank": 0, "hooks": dict(_NOHOOKS), "injected": [], "tests": [mk("t10", 0, [], [])], "subs": []}
+        consumer = {"name": "s7", "disabled": False, "rank": 1, "hooks": hooks, "injected": [],
+                    "tests": [mk("t20", 0, ["f5"], ["s6.t10"])] + ([mk("t21", 1, ["f5"], [])] if k >= 2 else []), "subs": []}
+        base.append({"id": "qd%d" % k, "project": {"fixtures": fx, "suites": [producer, consumer]}, "sched": [],
+                     "options": {"nb_threads": 1, "stop_on_failure": False, "force_disabled": False}})
     cases, ref_of = [], {}
     for c in base:
         c["options"] = {"nb_threads": 1, "stop_on_failure": False, "force_disabled": c["options"]["force_disabled"]}
@@ -70,7 +85,7 @@ def check(run):
             c2["sched"] = projgen.gen_sched(run.rng, kind=run.rng.choice(["random", "last", "bursts", "random"]))
             ref_of[c2["id"]] = c["id"]
             cases.append(c2)
-        if c["id"].startswith("qf"):
+        if c["id"].startswith(("qf", "qd")):
             # starving schedules: one worker goes on alone for j steps, then the other one as long as it can (and the reverse)
             for j in range(1, 11):
                 for first in (0, 1):
@@ -95,6 +110,15 @@ def check(run):
     for cid, ref in ref_of.items():
         a, b = results.get(ref) or {}, results.get(cid) or {}
         if not a.get("report") or not b.get("report"):
+            continue
+        if (a.get("outcome") or ["?"])[0] == "returned" and (b.get("outcome") or ["?"])[0] in ("raised", "hang", "sched_abort"):
+            # the one-thread run ends normally, the N-thread run of the same project does not: whatever report it leaves is not
+            # the report of the one-thread run
+            case = next(c for c in cases if c["id"] == cid)
+            run.violation("n-thread-run-does-not-end-like-the-one-thread-run",
+                          "the run with %d threads ends with %s while the run with one thread returns normally" % (
+                              case["options"]["nb_threads"], [str(x)[:300] for x in b["outcome"][:3]]),
+                          {"case": case, "reference_case": next(c for c in cases if c["id"] == ref), "difference": "outcome %s" % b["outcome"][0]})
             continue
         if (a.get("outcome") or ["?"])[0] != "returned" or (b.get("outcome") or ["?"])[0] != "returned":
             continue
@@ -279,6 +303,9 @@ def replay(path):
         return 2
     res = sim.run_cases([case, ref])
     a, b = res[ref["id"]], res[case["id"]]
+    if (a.get("outcome") or ["?"])[0] == "returned" and (b.get("outcome") or ["?"])[0] != "returned":
+        print(json.dumps({"difference": "the N-thread run ends with %s" % [str(x)[:300] for x in (b.get("outcome") or [])[:3]]}, indent=1))
+        return 1
     d = runoracle.first_difference(runoracle.strip_attachment_prefix(a["report"]), runoracle.strip_attachment_prefix(b["report"]))
     print(json.dumps({"difference": d}, indent=1))
     return 1 if d else 0
